@@ -670,7 +670,11 @@ def run(ctx):
         run_case(ctx, case, rng)
     for i in range(per_family):
         for fam in FAMS:
-            run_case(ctx, draw_case(rng, fam), rng, heavy=(i % 2 == 0) or ctx.thorough)
+            case = draw_case(rng, fam)
+            if fam != "bs" and i % 3 == 1:
+                # the same kind of model, rebuilt through an edited and re-initialised parameter object (calibration idiom)
+                case["params"] = dict(case["params"], **{zoo.REINIT: True})
+            run_case(ctx, case, rng, heavy=(i % 2 == 0) or ctx.thorough)
     # every CGMY branch of the activity index at least once (y<0 and small-cT y=0 fall outside the box: exact probes only)
     for y in zoo.CGMY_Y_BRANCHES:
         run_case(ctx, draw_case(rng, "cgmy", y), rng, heavy=False)
